@@ -247,3 +247,16 @@ func (t *T) ClearDefineArgs() {
 func (t *T) SetIsBuiltin(b bool) {
 	t.isBuiltin = b
 }
+
+// GetVariantsOrSelf lists the variants of a union, or the value itself.
+func (t *T) GetVariantsOrSelf() []T {
+	if t == nil {
+		return nil
+	}
+
+	if t.tType == UNION {
+		return append([]T{}, t.variants...)
+	}
+
+	return []T{*t}
+}
